@@ -424,3 +424,41 @@ func vh_C07_SymbolicLimits() {
 	vfAssert("count-after-drain", q.Count() == 0)
 	vfReach("end")
 }
+
+// the free-node pass trims the overflow buffer's cache of list nodes down to nodeHookPoolSize (0..1) after a burst that
+// left 3 of them behind, handing the surplus to the runtime's sync.Pool - from where a second burst may get them back
+// (the pool model returns a fresh node or any node handed to it before). Whatever the trimmed nodes still carry, the
+// second burst - and a third one after it has been drained - is accepted, counted and delivered exactly once in order.
+func vh_C07_TrimmedNodesComeBack() {
+	vfSetMapOrder(2)
+	vfSetDelayBound(0) // one caller: the queue's own goroutines run whenever it waits; what is explored is which node sync.Pool returns
+	q := NewBufferedChannelQueue[c07Item](1, 4, vfRange("node-hooks", 0, 1))
+	l := &c07Log{}
+	next := 0
+	for round := 0; round < 3; round++ {
+		k := 4
+		switch round {
+		case 1:
+			k = vfRange("second-burst", 2, 3) // its last node may be one that came back
+		case 2:
+			k = 2 // ... and what was accepted after that drain must still come out
+		}
+		for i := 0; i < k; i++ {
+			err := q.Offer(l.item(next))
+			vfAssert("offer-accepts-while-room", err == nil) // 1 channel slot + 4 buffer places
+			l.accept(next, err)
+			next++
+		}
+		for tries := 0; len(l.delivered) < len(l.accepted) && tries < 10; tries++ {
+			if v, err := q.TakeWithTimeout(150 * time.Millisecond); err == nil {
+				l.deliver(v)
+			}
+		}
+		vfAssert("nothing-lost-or-stranded", len(l.delivered) == len(l.accepted))
+		vfQuiesce() // the free-node pass runs
+		vfAssert("count-after-drain", q.Count() == 0)
+	}
+	c07Check(l, true)
+	vfAssert("fifo", vfSliceEq(l.delivered, l.accepted))
+	vfReach("end")
+}
